@@ -32,6 +32,12 @@ fn ts_infix_from_path(path: &Path, file_spec: &FileSpec) -> String {
     .to_string()
 }
 
+// The parser is lenient (leading blanks, signs, numbers without padding):
+// an infix of ours is only the text that the format itself writes.
+pub(crate) fn is_timestamp_infix(infix: &str, fmt: &InfixFormat) -> bool {
+    timestamp_from_ts_infix(infix, fmt).is_ok_and(|ts| ts.format(fmt.format()).to_string() == infix)
+}
+
 pub(crate) fn timestamp_from_ts_infix(
     infix: &str,
     fmt: &InfixFormat,
